@@ -26,7 +26,7 @@ check("C03", "exploration",
       "The full product types x empty flag x length declarations x allowed-character ranges x formats x guard cells is "
       "enumerated in both tiers; every validated() call is judged by the guard part of the field model, and the same cells are "
       "read through Reader in yield mode to check that rejections name the field.",
-      "Trusts the guard model in cpverif/models/fieldmodel.py; blank-only fixed cells with blank not allowed are unjudged.",
+      "Trusts the guard model in cpverif/models/fieldmodel.py; only the blank (U+0020) is padding of fixed cells; non-canonical number and date spellings are unjudged.",
       "runtime monitor on FieldFormat.validated + guard model, exhaustive enumeration of the stated product", "DESIGN.md 5/C03")
 
 check("C04", "exploration",
@@ -39,11 +39,11 @@ check("C05", "exploration",
       "Row sequences over tiny key alphabets are read through cutplace.Reader in all three modes; each produced item, the "
       "location and see-also location of every duplicate report and the end-of-data verdict of close() are compared with an "
       "independent uniqueness / distinct-count model; thorough enumerates all sequences of up to 5 rows over 5 row kinds.",
-      "Trusts M-checks; keys registered by a row that a later-declared check rejected and aborted raise-mode runs are unjudged.",
+      "Trusts M-checks (two variants where a later row uses the key of a row that a later-declared check rejected: the statement's and the recorded defect's).",
       "recorded reader history vs executable model of the whole-file checks (M-checks)", "DESIGN.md 5/C05")
 
 check("C06", "exploration",
-      "Each generated case is read in the three error modes on fresh CIDs from six storages and the recorded histories are "
+      "Each generated case is read in the three error modes on fresh CIDs from six storages (alternately through Reader.rows() + close() and through cutplace.rows(), 60% of the CIDs with a DistinctCount check that can fail on a part of the data) and the recorded histories are "
       "compared with each other (continue = accepted rows of yield; raise = prefix + the same error), with the counters "
       "(conservation) and with the row model; yielded errors are re-inspected after the run; container faults are injected at "
       "every row boundary (unterminated quote, undecodable byte, short fixed record, wrong delimiter, truncated ODS/XLSX "
@@ -85,14 +85,14 @@ check("C08", "exploration",
       "Operation histories (reads in all modes, abandoned / unclosed / never started reads, validate with limit 0, writes with "
       "and without close) are executed on one Cid object; the recorded outcome of the last operation of every history - items, "
       "rejections with row numbers, end-of-data result, written text, counters - must equal the recorded outcome of the same "
-      "operation on a freshly loaded Cid. All histories up to length 2 (quick) / 3 (thorough) over 51 operations x 4 CIDs are "
-      "enumerated, longer ones sampled.",
+      "operation on a freshly loaded Cid. All histories up to length 2 (quick) / 3 (thorough) over 54 operations x 4 CIDs are "
+      "enumerated, longer ones sampled; pairs of runs that overlap in time (every interleaving of open / one row per step / close) are compared with each run alone on a fresh Cid.",
       "The reference is the implementation itself with fresh state (history + model where model = fresh execution).",
       "recorded operation histories compared with fresh-state executions of the same operation", "DESIGN.md 5/C08")
 
 check("C14", "exploration",
       "Row sequences mixing accepted rows, rejected cells, wrong item counts and duplicates are written one at a time through "
-      "cutplace.Writer (delimited and fixed CIDs, headers, whole-file checks, every line-delimiter setting); after every "
+      "cutplace.Writer (delimited and fixed CIDs, a sixth named by the path of a CID file, headers, whole-file checks, every line-delimiter setting, skip initial space); after every "
       "write_row the stream is inspected and compared with the writer model (grown by exactly the row's encoding iff the row "
       "conforms), close() is compared with the distinct-count model, and the output is read back under a fresh CID.",
       "Trusts M-field/M-rows and csv.writer for the default dialect's encoding.",
@@ -101,8 +101,8 @@ check("C14", "exploration",
 check("C20", "exploration",
       "Recording field-format and check subclasses (the documented plugin boundary) are registered in the harness process and "
       "their call log is compared with the sequence the protocol model predicts, over generated CIDs / tables / header / limit / "
-      "three modes / reader, rows() and writer / 1-3 consecutive runs on one CID; the same classes are also loaded from a plugin "
-      "folder by import_plugins and by the command line's --plugins in subprocesses and log to a file.",
+      "three modes / reader, rows() and writer / 1-3 consecutive runs on one CID, with classes defined late, classes deriving from other user classes and checks handed over through Cid.add_check(); rejections caused by user classes must tell their row; the same classes are also loaded from a plugin "
+      "folder (names with glob characters included) by import_plugins and by the command line's --plugins in subprocesses and log to a file.",
       "Trusts the guard model and M-protocol; 'reset once' is judged as 'at least once before the first row, never later'.",
       "call-log monitor at the plugin boundary vs protocol model (trace specification)", "DESIGN.md 5/C20")
 
@@ -116,9 +116,9 @@ check("C18", "exploration",
 
 check("C15", "fault_enumeration",
       "ODS files are produced by an independent encoder (zipfile + hand-written ODF XML) with all 128 combinations of the optional "
-      "encoding features, 1-3 sheets and three XML encodings; every sheet is read with ods_rows (and through cutplace.rows under an "
+      "encoding features plus header rows, nested row groups, merged cells and annotations, 1-3 sheets and three XML encodings; every sheet is read with ods_rows (and through cutplace.rows under an "
       "ODS CID) and compared with the logical table; faults (missing sheet, not a zip, no content.xml, truncation at every 64th/128th "
-      "byte, content.xml cut at tag boundaries, bad repeat counts) must end in DataFormatError.",
+      "byte, content.xml cut at tag boundaries, repeat counts that are non-positive, non-numeric for XML or absurdly big, nesting beyond the recursion limit) must end in DataFormatError.",
       "Trusts the encoder cpverif/storage.py (ODF 1.2 white-space rules); trailing runs of empty rows and constructs the encoder never emits are unjudged.",
       "independent encoder -> real reader comparison + container fault enumeration", "DESIGN.md 5/C15")
 
@@ -135,12 +135,12 @@ check("C09", "exploration",
       "0-3 checks) are loaded through Cid.read; meaning-preserving rewrites must stay accepted and parse to the same interface "
       "(observed through the public attributes); each entry of a ~45-defect catalogue is applied at every applicable row and must "
       "be refused with an InterfaceError whose text names that row.",
-      "Defect catalogue and rewrite set are those of DESIGN.md; field rows after check rows and leading blanks in check rules are unjudged.",
+      "Defect catalogue and rewrite set are those of DESIGN.md plus the round-3/4 additions (field after check, undeclared names anywhere in a DistinctCount rule, fractional / multi-part lengths, untokenizable cells).",
       "boundary observation of Cid.read under rewrite-equivalence and single-defect injection at every row", "DESIGN.md 5/C09")
 
 check("C10", "fault_enumeration",
       "Every cell of every row kind of four valid base CIDs and every cell of their data is replaced, one at a time, by each of "
-      "~110 hostile values; the CID is loaded, the data validated under it, and a tenth also run through applications.main; "
+      "~160 hostile values and by 22 hostile decorations of the cell's own value; the CID is loaded, the data validated under it, and a tenth also run through applications.main; "
       "containers are truncated / get one byte replaced at every offset (archives sampled in quick). An exception monitor at "
       "the API boundary admits only InterfaceError / DataError and never exit code 4; the innermost cutplace frame of an "
       "escaping traceback names the mechanism. Thorough adds all cell pairs over the 25 most productive values.",
@@ -159,7 +159,7 @@ check("C19", "exploration",
       "CREATE TABLE statements are generated by the real SqlFactory for all four dialects from CIDs covering, exhaustively, every "
       "Integer range over the boundary set +-(2^k + d) and, sampled, keyword / near-keyword names in three casings, Decimal "
       "rules, length declarations and empty marks; the statement is parsed back and every column compared with the DDL model "
-      "(order, quoting, NOT NULL, integer interval of the column type contains both limits, decimal digits, text length).",
+      "(order, quoting - keyword tables cross-checked with the vendors' reserved words -, NOT NULL, a column type that exists in the dialect and whose interval contains both limits, decimal digits, text length); sql.write_create() is run on CIDs stored as CSV, ODS and Excel.",
       "Trusts the DDL model in cpverif/props/c19.py; ANSI int beyond 32 bit and open-ended ranges are unjudged.",
       "output of the real generator parsed back and judged by a DDL model, exhaustive over the type-boundary set", "DESIGN.md 5/C19")
 
